@@ -1,6 +1,7 @@
 """C16 -- is_url options are monotone; urls_from_text yields genuine URLs of the text."""
 import ast
 import itertools
+import re
 
 from ..srcmodel import AnalysisError, Unknown, Regex, unparse
 from ..cfg import CFG
@@ -283,6 +284,71 @@ def text(ctx, rule):
         ctx.ob(rule, "yield/%s@%d/validated-after-last-modification" % (var, yields.index(y)), bad is None,
                "urls_from_text can yield `%s` after `%s` without checking it against URL_WITH_PROTOCOL_RE: a markdown target or a trimmed candidate that is not a url is yielded" % (var, unparse(bad.ast)[:50] if bad else ""),
                mod.site(y.ast), witness="[https://lemonde.fr/a](lemonde.fr/b", sample="yield %s: every path from its last modification passes a validation" % var)
+    # no surrounding whitespace: the pattern's unicode ranges let whitespace (U+3000, U+2003, ...) sit INSIDE a match, so a
+    # cut of the candidate can expose it at an edge: after its last modification the yielded value is stripped, unless the
+    # cut is a split on a constant next to which no match can hold whitespace (regex-language fact)
+    pm = repo.mod("patterns")
+    try:
+        A = Algebra()
+        rx = repo.const(pm, "URL_IN_TEXT_RE")
+        intext = A.regex(rx.pattern, rx.flags, "fullmatch", "URL_IN_TEXT_RE")
+        inner = A.witness(A.inter(intext, A.regex(r"\S[\s\S]*\s[\s\S]*\S", 0, "fullmatch")))
+    except Unsupported as e:
+        ctx.undecided(rule, "URL_IN_TEXT_RE: %s" % e)
+        inner = None
+        A = None
+
+    def strips(value, side):
+        """the assigned expression ends with .strip() / .rstrip() (right edge) or .strip() / .lstrip() (left edge)"""
+        return isinstance(value, ast.Call) and isinstance(value.func, ast.Attribute) and not value.args and value.func.attr in (("strip", "rstrip") if side == "right" else ("strip", "lstrip"))
+
+    def clean_split(value):
+        """x.split(CONST, ...) where no match of the pattern has whitespace next to CONST"""
+        if not (isinstance(value, ast.Call) and isinstance(value.func, ast.Attribute) and value.func.attr in ("split", "rsplit", "partition", "rpartition") and value.args and isinstance(value.args[0], ast.Constant) and isinstance(value.args[0].value, str)):
+            return False
+        sep = re.escape(value.args[0].value)
+        try:
+            return A.witness(A.inter(intext, A.regex(r"[\s\S]*(?:\s%s|%s\s)[\s\S]*" % (sep, sep), 0, "fullmatch"))) is None
+        except Unsupported:
+            return False
+
+    if inner is not None:
+        for y in yields:
+            v = y.ast.value.value
+            if not isinstance(v, ast.Name):
+                continue
+            var = v.id
+            bad = None
+            seen = set()
+            stack = [(p, lab) for lab, p in y.pred]
+            while stack:
+                n, lab = stack.pop()
+                if (n.id, lab) in seen:
+                    continue
+                seen.add((n.id, lab))
+                if assigns(n, var):
+                    val = n.ast.value
+                    whole = isinstance(n.ast.targets[0], ast.Name)
+                    if whole and strips(val, "right") and strips(val, "left"):
+                        continue
+                    if whole and isinstance(val, ast.Subscript) and isinstance(val.value, ast.Name) and val.value.id == var and isinstance(val.slice, ast.Slice) and val.slice.lower is None:
+                        bad = n  # a right cut of an already clean value: the new right edge is unexamined
+                        break
+                    if (whole and isinstance(val, ast.Call) and isinstance(val.func, ast.Attribute) and val.func.attr in ("strip", "rstrip") and not val.args and isinstance(val.func.value, ast.Subscript)
+                            and isinstance(val.func.value.value, ast.Name) and val.func.value.value.id == var and isinstance(val.func.value.slice, ast.Slice) and val.func.value.slice.lower is None):
+                        stack.extend((p, l) for l, p in n.pred)  # right cut re-stripped: the left edge is whatever it was before
+                        continue
+                    if clean_split(val):
+                        stack.extend((p, l) for l, p in n.pred)
+                        continue
+                    bad = n
+                    break
+                if n is g.entry:
+                    continue
+                stack.extend((p, l) for l, p in n.pred)
+            ctx.ob(rule, "yield/%s@%d/stripped-after-last-cut" % (var, yields.index(y)), bad is None,
+                   "URL_IN_TEXT_RE can match whitespace inside a url (%r) and urls_from_text yields `%s` after `%s` without stripping it again: the url ends with the exposed whitespace" % (inner, var, unparse(bad.ast)[:40] if bad else ""),
+                   mod.site(y.ast), witness="see http://lemonde.fr\u3000. ok", sample="yield %s: stripped (or cut next to a whitespace-free separator) after every modification" % var)
     # index safety: every url[<expr>] read is preceded (after the last assignment) by `not url` / validation / len test
     subs = []
     for n in g.nodes:
@@ -353,7 +419,7 @@ TEXT_CELLS = [
     "(http://a.com/x)", "see http://a.com/x.", "see http://a.com/x...", "see http://a.com/x!?", "http://a.com/x, http://b.org/y; ok", "«http://a.com/x»", "http://a.com/x).",
     "[label](http://a.com/x)", "[http://a.com/x](http://b.org/y)", "[http://a.com/x](", "[http://a.com/x]()", "[http://a.com/x](see below", "[http://a.com/x](b.org/other", "[http://a.com/a](b)c",
     "[http://a.com/x", "[[http://a.com/x]]", "![img](http://a.com/i.png)", "[http://a.com/x](http://b.org/y).",
-    "http://a.com/x　next", "http://a.com/x　.", " http://a.com/x ", "http://a.com/x\n\nhttp://b.org/y", "http://", "http://.", "https://a", "ftp://a.com/f git://a.com/r.git",
+    "http://a.com/x　next", "http://a.com/x　.", " http://a.com/x ", "http://a.com/x\n\nhttp://b.org/y", "see http://lemonde.fr\u3000. ok", "http://a.com\u3000, b", "http://a.com\u2003!?", "[http://a.com\u3000.](http://b.org/y)", "http://", "http://.", "https://a", "ftp://a.com/f git://a.com/r.git",
     "a must read https://t.c… via @other", "il a dit «https://lemonde.f» hier", "a [link](http://a.b—) and [http://ok.fr/x](http://b.c’) end", "http://a.b.", "see http://a.co,",
     "HTTP://A.COM/X", "http://a.com/x?u=http://b.org/y", "http://a.com/(x)", "http://a.com/x_(y)", "email a@b.com and www.a.com only",
 ]
